@@ -75,7 +75,7 @@ func c08JSON(m, p string, body interface{}) HReq {
 }
 
 func c08Pure(rng *rand.Rand, i int, compiled bool) c08Req {
-	k := rng.Intn(10)
+	k := rng.Intn(12)
 	if compiled {
 		k = 4 + rng.Intn(3) // the compiled module has no user functions and no parseInt
 	}
@@ -103,6 +103,12 @@ func c08Pure(rng *rand.Rand, i int, compiled bool) c08Req {
 		n := 200 + rng.Intn(2500)
 		tok := fmt.Sprintf("b%d", i)
 		return c08Req{Req: c08JSON("POST", "/loopb/"+tok, map[string]interface{}{"n": n}), Expect: map[string]interface{}{"kind": "loopb", "tok": tok, "n": float64(n), "acc": float64(loopAcc(n))}}
+	case 10, 11:
+		// an input type whose defaulted fields are an object and a list, mutated in place by
+		// the route: every request must get defaults of its own
+		name := fmt.Sprintf("user-%d-%d", i, rng.Intn(1e6))
+		return c08Req{Req: c08JSON("POST", "/signup", map[string]interface{}{"name": name}),
+			Expect: map[string]interface{}{"kind": "signup", "name": name, "prefs": map[string]interface{}{"digest": "weekly", "owner": name}, "tags": []interface{}{name}}}
 	case 7:
 		n := rng.Intn(100000)
 		return c08Req{Req: HReq{M: "GET", P: fmt.Sprintf("/hof/%d", n)}, Expect: map[string]interface{}{"kind": "hof",
@@ -382,6 +388,16 @@ func checkC08(tier string) {
 			created["mongo:"+key] = true
 			hj.Pre = append(hj.Pre, c08JSON("POST", "/mongo/insert", map[string]interface{}{"k": key, "val": "init-" + key}))
 		}
+		ttlKeys := 0
+		if j%4 == 1 {
+			// keys stored with a TTL of one second that has run out when the concurrent phase
+			// starts: the first lookups of expired keys then happen from many requests at once
+			ttlKeys = 200
+			for k := 0; k < ttlKeys; k++ {
+				hj.Pre = append(hj.Pre, c08JSON("POST", fmt.Sprintf("/redis/setttl/e%d", k), map[string]interface{}{"val": "soon-gone"}))
+			}
+			hj.PauseMs = 1400
+		}
 		n := 500
 		// first use of a table by several requests at once: tables f0..f7 are touched by
 		// nobody before the concurrent phase; every acknowledged row must be there afterwards
@@ -413,6 +429,11 @@ func checkC08(tier string) {
 				default:
 					m.reqs = append(m.reqs, c08Req{Req: HReq{M: "GET", P: "/mongo/find/m0"}, Op: &c08Op{"mongo", "m0", "read", ""}})
 				}
+				continue
+			}
+			if ttlKeys > 0 && i%3 == 0 {
+				key := fmt.Sprintf("e%d", rng.Intn(ttlKeys))
+				m.reqs = append(m.reqs, c08Req{Req: HReq{M: "GET", P: "/redis/get/" + key}, Op: &c08Op{"redis", key, "read", ""}})
 				continue
 			}
 			if i%9 == 8 {
@@ -534,6 +555,9 @@ func checkC08(tier string) {
 				byKey := map[string][]porcupine.Operation{}
 				// pre-phase writes are part of the histories (they happen before everything)
 				for pi, p := range o.Pre {
+					if strings.HasPrefix(hj.Pre[pi].P, "/redis/setttl/") {
+						continue // stored with a TTL that has run out before the main phase: the key is absent
+					}
 					var body map[string]interface{}
 					json.Unmarshal([]byte(*hj.Pre[pi].B), &body)
 					space, key := "db", fmt.Sprint(body["id"])
